@@ -17,7 +17,7 @@ PROP = "C15"
 MOD = "nv.checks.c15"
 BOOLS = ["retain_names", "retain_coefficients", "sort_graded", "sort_reverse", "display_graded", "display_reverse", "display_inverse", "force_number_suffix"]
 # drivers whose operations the property lists: construct, combine, differentiate, evaluate, index, align, (un)pickle (+ division under default retain options)
-SOURCES = {"c01": None, "c02": None, "c04": None, "c06": None, "c09": None, "c10": None, "c13": None, "c19": None, "c05": "no-retain", "c07": "no-sort", "c16": "display-only"}
+SOURCES = {"c01": None, "c02": None, "c03": None, "c04": None, "c06": None, "c09": None, "c10": None, "c13": None, "c19": None, "c05": "no-retain", "c07": "no-sort", "c16": "display-only"}
 ALLOWED_DIFFERENCES = {"names", "exponents", "terms"}
 
 
@@ -97,18 +97,24 @@ def gen_cases(tier: str, seed: int) -> List[Dict]:
     for src in SOURCES:
         mod = importlib.import_module("nv.checks." + src)
         cs = mod.gen_cases(tier, seed)
+        if src == "c03":
+            cs = [c for c in cs if c["op"] == "rebuild"]
         if src == "c13":
             cs = [c for c in cs if c["kind"] in ("pickle", "copy")]
         if src == "c10":
             # the recorded known finding C10-matmul-vector (1-d operands) is C10's business
             cs = [c for c in cs if not (c["fn"].startswith("matmul") and any(len(o["shape"]) == 1 for o in c["operands"]))]
+        if src == "c09":
+            # the recorded known finding C09-repeat-default-axis is C09's business
+            cs = [c for c in cs if not (c["fn"] == "repeat" and (c.get("par") or {}).get("axis") == "omitted")]
         if src == "c19":
             cs = [c for c in cs if c["fn"] in ("lead", "const", "decompose", "set_dimensions")]
         pools[src] = cs
     for ci, cfg in enumerate(configs):
         for src, restriction in SOURCES.items():
             pool = pools[src]
-            for c in rng.sample(pool, min(per, len(pool))):
+            always = [c for c in pool if "-unusedlead" in c.get("id", "")] if src == "c03" else []
+            for c in always + rng.sample(pool, min(per, len(pool))):
                 c = dict(c)
                 opt = dict(cfg)
                 opt.update(rng.choice(strings))
